@@ -993,8 +993,16 @@ func (c *simCluster) deliver(i int) {
 				}
 			}
 		}
-		pv := c.run(dst, "recv "+m.kind.String()+fmt.Sprintf(" from %d", m.from), m.lit, func() (response, []string) {
-			res = dst.deliverRPCNoSettle(m.wire)
+		wire, lit, cut := m.wire, m.lit, false
+		if m.kind == rpcAppendEntries && !m.dup && c.abs == nil && c.rnd.Intn(14) == 0 {
+			// the connection breaks inside the request
+			if w2, es2, ok := cutAppendWire(c.rnd, m.wire); ok {
+				q, _ := decodeAppendWire(m.wire)
+				wire, lit, cut = w2, "(EAppendReqCut "+coqAppendReq(q, es2)+")", true
+			}
+		}
+		pv := c.run(dst, "recv "+m.kind.String()+fmt.Sprintf(" from %d", m.from), lit, func() (response, []string) {
+			res = dst.deliverRPCNoSettle(wire)
 			if res.panicv != nil {
 				panic(res.panicv)
 			}
@@ -1005,6 +1013,11 @@ func (c *simCluster) deliver(i int) {
 			if p := c.pipes[k]; len(p) > 0 && p[0] == m {
 				c.pipes[k] = p[1:]
 			}
+		}
+		if cut {
+			// no answer reaches the leader; what was in flight on that connection is lost with it
+			c.breakConn([2]uint64{m.from, m.to})
+			return
 		}
 		if pv == nil && res.resp != nil && !m.dup {
 			c.net = append(c.net, &simMsg{from: m.to, to: m.from, kind: m.kind, epoch: m.epoch, reqLast: m.reqLast, isResp: true, resp: res.resp, piped: m.piped,
